@@ -1058,6 +1058,10 @@ class Interp:
                     except (KeyError, TypeError, ValueError):
                         return AVal(('classattr', k.qualname, attr), None)
             return AVal(('attr', bt, attr), None)
+        if attr == '__class__' and base.types and base.exact and len(base.types) == 1 and \
+                isinstance(next(iter(base.types)), ClassInfo):
+            c = next(iter(base.types))
+            return AVal(('class', c.qualname), [c], exact=True)
         # instance attribute
         types = None
         mutable = True
@@ -1574,6 +1578,9 @@ class Interp:
                 return {'kind': 'funcs', 'funcs': [f], 'recv': base if is_cm else None, 'name': name,
                         'unbound': not is_cm and not self._is_static(f)}
             return {'kind': 'external', 'name': cls.name + '.' + name, 'recv': base}
+        if name == '__class__' and base.types and base.exact and len(base.types) == 1 and \
+                isinstance(next(iter(base.types)), ClassInfo):
+            return {'kind': 'ctor', 'cls': next(iter(base.types)), 'name': '__class__'}
         # heap-stored callable attribute (e.g. self._on_cancel)
         if base.types:
             funcs = []
